@@ -397,6 +397,8 @@ structure Cfg where
                                     -- the object's own is known answers True instead of being compared (repair C03-denied-probe)
   asDictSkipCatch : List String     -- psutil.Process.as_dict: classes of the 2nd handler (NotImplementedError)
   asDictSkipRule : String           -- … and its body: "if attrs: raise; continue"
+  parentRootGuard : Bool            -- parent(): the lowest-PID stop runs `self._raise_if_pid_reused()` before `return None`
+                                    -- (/repo d7107b4, fixes/C05-parent-root-recycled.diff); false = the stop answers without any access
   deriving DecidableEq, Repr
 
 section
@@ -965,13 +967,21 @@ def children (o : Obj) : M Val := do
   let l ← childrenLoop cfg o pm
   pure (.procs l)
 
+/-- the lowest-PID stop of parent(), `if self.pid == lowest_pid:`, before its `return None`: since /repo d7107b4 it
+    runs `self._raise_if_pid_reused()` (→ is_running() → the probe `Process(self.pid)`: one more open + read of
+    /proc/<pid>/stat that can be refused or find the process gone); without the guard (fact false) no access at all -/
+def rootStop (o : Obj) : M Unit :=
+  if cfg.parentRootGuard then raiseIfPidReused cfg o else pure ()
+
 /-- parent() with `_LOWEST_PID` unset: `pids()[0]` = minimum of the listing -/
 def parent (o : Obj) : M Val := do
   let pids ← accListdir .root
   match pids.foldl (fun (m : Option Nat) x => match m with | none => some x | some y => some (min x y)) none with
   | none => throw .indexError
   | some lowest =>
-    if o.pid == lowest then pure .none
+    if o.pid == lowest then do
+      rootStop cfg o
+      pure .none
     else do
       let pp ← ppid cfg o
       let ctime ← createTime cfg o
@@ -1062,7 +1072,9 @@ def lowestPid : M Nat := do
 /-- the body of parent() once `lowest_pid` is known, on an object whose `_create_time` cache holds
     `cached`: the parent object and its create time (cached on it from now on) -/
 def parentCore (lowest : Nat) (o : Obj) (cached : Option Nat) : M (Option (Obj × Nat)) :=
-  if o.pid == lowest then pure none
+  if o.pid == lowest then do
+    rootStop cfg o          -- on an ancestor object too: its `_ident` is what `Process(ppid)` saw (possibly (pid, None))
+    pure none
   else do
     let pp ← ppid cfg o
     let ctime ← (match cached with
